@@ -18,7 +18,7 @@ PROOF_NOTE = ("Trusted: Lean 4.33 kernel with axioms {propext, Classical.choice,
 PROPS = {
     "C09": {
         "level": "proof",
-        "text": "Kernel-checked theorems for every label list (= every schedule, number of senders, capacity): mailbox occupancy + reserved permits <= capacity; ok_tell_was_accepted (a tell that returned Ok has its accepted event in the history or, if the actor dropped its receivers while the sender held its slot, lies in the closed channel of the ended actor: Inv/OkAcc.lean); capacity/default/once-only configuration proved on functions translated from src/lib.rs on every run. The model is validated against the real crate by per-run correspondence (seeded scripts on a paused Tokio runtime) and the occupancy monitor runs on every real trace. Real threads: a spawn_blocking sender's blocking_tell(.., None) calls into a full capacity-1 mailbox all wait and return Ok (stress blocking a2); a cancelled send holds no slot (stress cancel). Step-level, any state: free_slot_no_wait (a send issued while a slot is free and nobody is queued ahead holds its permit at once) and full_mailbox_waits (otherwise it is queued FIFO: no failure recorded, mailbox untouched). no_idle_slot (every reachable state): while the mailbox is open, a sender is queued without a permit only when mailbox items + permits handed out = capacity. Net engine (detection build): a hook's tell into its own full mailbox waits or times out - it never ends the hook with a panic. Real clock (late): a timed tell whose slot is freed well before the deadline while the runtime thread stays busy past it returns Ok.",
+        "text": "Kernel-checked theorems for every label list (= every schedule, number of senders, capacity): mailbox occupancy + reserved permits <= capacity; ok_tell_was_accepted (a tell that returned Ok has its accepted event in the history or, if the actor dropped its receivers while the sender held its slot, lies in the closed channel of the ended actor: Inv/OkAcc.lean); capacity/default/once-only configuration proved on functions translated from src/lib.rs on every run. The model is validated against the real crate by per-run correspondence (seeded scripts on a paused Tokio runtime) and the occupancy monitor runs on every real trace. Real threads: a spawn_blocking sender's blocking_tell(.., None) calls into a full capacity-1 mailbox all wait and return Ok (stress blocking a2); a cancelled send holds no slot (stress cancel). Step-level, any state: free_slot_no_wait (a send issued while a slot is free and nobody is queued ahead holds its permit at once) and full_mailbox_waits (otherwise it is queued FIFO: no failure recorded, mailbox untouched). no_idle_slot (every reachable state): while the mailbox is open, a sender is queued without a permit only when mailbox items + permits handed out = capacity. Net engine (detection build): a hook's tell into its own full mailbox waits or times out - it never ends the hook with a panic. Real clock (late): a timed tell whose slot is freed well before the deadline while the runtime thread stays busy past it returns Ok. send_error_only_after_end (Inv/SendErr.lean): an operation answered with Err(Send) was answered after the actor's task had finished - a running actor never refuses a message; the trace monitor C09.failOnlyWhenClosed checks it, with the event order, on every real trace. Stress scenario `stale`: after a timed tell gave up and a stop() was abandoned while waiting for a slot, a plain tell into the still-full mailbox waits and is accepted.",
         "note": PROOF_NOTE,
         "technique": "Lean 4 invariant proof by induction over label sequences + translated config functions + model/implementation correspondence",
         "monitors": ["C09"],
@@ -32,7 +32,7 @@ PROPS = {
 PROPS.update({
     "C01": {
         "level": "proof",
-        "text": "Kernel-checked theorems over every label list: at_most_once, handled_were_accepted, rejected_never (state form and on the monitor predicate evaluated on real traces), graceful_complete (everything the loop has dequeued has been handled) and marker_is_next (when the loop dequeues a stop marker everything accepted before it has been dequeued). The model's mailbox is tied to the code by per-run correspondence; the acceptance probe makes 'accepted' observable on the real side; monitors C01.atMostOnce / rejectedNever / gracefulComplete run on every real trace. Stress scenario `selfchain`: work that keeps itself alive - each handler tells its own actor the next step (directly, through a task holding a clone, or by upgrading a weak handle) after the spawner dropped its handle: every step is handled before on_stop. Progress: accepted_message_is_not_left_waiting - when nothing can run any more, no accepted message sits in the mailbox of an idle actor. Net engine (detection build): hooks that tell their own actor and stop it from inside; on every history a tell that returned Ok before the graceful on_stop began is handled before it.",
+        "text": "Kernel-checked theorems over every label list: at_most_once, handled_were_accepted, rejected_never (state form and on the monitor predicate evaluated on real traces), graceful_complete (everything the loop has dequeued has been handled) and marker_is_next (when the loop dequeues a stop marker everything accepted before it has been dequeued). The model's mailbox is tied to the code by per-run correspondence; the acceptance probe makes 'accepted' observable on the real side; monitors C01.atMostOnce / rejectedNever / gracefulComplete run on every real trace. Stress scenario `selfchain`: work that keeps itself alive - each handler tells its own actor the next step (directly, through a task holding a clone, or by upgrading a weak handle) after the spawner dropped its handle: every step is handled before on_stop. Progress: accepted_message_is_not_left_waiting - when nothing can run any more, no accepted message sits in the mailbox of an idle actor. Net engine (detection build): hooks that tell their own actor and stop it from inside; on every history a tell that returned Ok before the graceful on_stop began is handled before it. Stress scenario `stale`: with the mailbox empty again after an episode of back-pressure, tells with a budget of 0 ns / 300 us report exactly what happened to their message.",
         "note": PROOF_NOTE + "",
         "technique": "Lean 4 invariant proofs (FIFO log, id freshness, rejection) by induction over label sequences + correspondence + Lean monitors on real traces",
         "extra": ["stress", "netcorr"],
@@ -104,7 +104,7 @@ PROPS.update({
 PROPS.update({
     "C03": {
         "level": "proof",
-        "text": "Kernel-checked for every run: reply_integrity (on the monitor predicate), ended_clean, later_fail, and completes - once the actor has ended every operation still in flight (queued for a permit, holding a permit, awaiting a reply, even with its envelope pushed after the receivers were dropped) completes within two of its own steps. The last case relies on the repaired reply wait, whose presence is extracted from src/actor_ref.rs on every run (Extracted.ask_wait_watches_closed). Correspondence + monitors C03.replyIntegrity / nothingPendingAfterEnd / laterFail on real traces. Progress (every schedule): no_operation_left_hanging - in every reachable state in which nothing can run any more (neither the actor's task nor a client operation) and the actor is idle or has ended, every operation ever issued has returned: no ask still waits for a reply, no send for a slot (Inv/Progress.lean: NoIdleSlot, ProgInv, quiescent_all_returned). Stress scenario `queuedask`: asks with reply types String, (), Option<String> and Vec<u8> still queued when the actor ends (kill, or behind a stop marker) fail with Err(Receive), unhandled, with one dead letter - never an Ok. Theorem settled_scheduler_all_returned restates the progress theorem in the scheduler's terms (Exec.runnable = []).",
+        "text": "Kernel-checked for every run: reply_integrity (on the monitor predicate), ended_clean, later_fail, and completes - once the actor has ended every operation still in flight (queued for a permit, holding a permit, awaiting a reply, even with its envelope pushed after the receivers were dropped) completes within two of its own steps. The last case relies on the repaired reply wait, whose presence is extracted from src/actor_ref.rs on every run (Extracted.ask_wait_watches_closed). Correspondence + monitors C03.replyIntegrity / nothingPendingAfterEnd / laterFail on real traces. Progress (every schedule): no_operation_left_hanging - in every reachable state in which nothing can run any more (neither the actor's task nor a client operation) and the actor is idle or has ended, every operation ever issued has returned: no ask still waits for a reply, no send for a slot (Inv/Progress.lean: NoIdleSlot, ProgInv, quiescent_all_returned). Stress scenario `queuedask`: asks with reply types String, (), Option<String> and Vec<u8> still queued when the actor ends (kill, or behind a stop marker) fail with Err(Receive), unhandled, with one dead letter - never an Ok. Theorem settled_scheduler_all_returned restates the progress theorem in the scheduler's terms (Exec.runnable = []). queuedask also re-asks through the same handle value after an ask was given up while queued: the second ask gets its own handler's value (same type, other type, timed).",
         "note": PROOF_NOTE + " ask_join is covered by the existing suite only. The stranding interleaving exists only with true parallelism; on the real code it is exercised by the multi-thread hammer (thorough).",
         "technique": "Lean 4 invariant proofs + progress theorem over label sequences + extraction of the reply-wait protocol + correspondence",
         "extra": ["stress"],
@@ -129,10 +129,10 @@ PROPS.update({
 PROPS.update({
     "C07": {
         "level": "proof",
-        "text": "Kernel-checked step theorems (for every state, hence every reachable one): never_spontaneous (a live actor begins to stop only by consuming a kill, observing zero strong references, dequeuing the stop marker, or an on_run error), ends_only_after_stop_or_crash, weak_dont_count, upgrade_iff, closed_means_unreferenced (the reference count includes handles, queued envelopes and markers, blocked senders, the running handler, operations in flight), and progress lemmas ends_when_unreferenced / ends_when_stopped. On real traces: C07.neverSpontaneous on every trace and endsWhenDue on settled (fully drained) traces; the handles family walks clone/drop/downgrade/upgrade histories. Stress scenario `backlog`: with any kind of on_run and backlogs of up to 200 queued messages, stop() or the drop of the last reference ends the actor after all of them were handled. Progress: unreferenced_actor_does_not_idle / idle_actor_is_referenced - when nothing can run any more, an actor without strong references has ended (or is inside a hook waiting for its own event), and an actor that idles is referenced, has no kill pending and an empty mailbox.",
+        "text": "Kernel-checked step theorems (for every state, hence every reachable one): never_spontaneous (a live actor begins to stop only by consuming a kill, observing zero strong references, dequeuing the stop marker, or an on_run error), ends_only_after_stop_or_crash, weak_dont_count, upgrade_iff, closed_means_unreferenced (the reference count includes handles, queued envelopes and markers, blocked senders, the running handler, operations in flight), and progress lemmas ends_when_unreferenced / ends_when_stopped. On real traces: C07.neverSpontaneous on every trace and endsWhenDue on settled (fully drained) traces; the handles family walks clone/drop/downgrade/upgrade histories. Stress scenario `backlog`: with any kind of on_run and backlogs of up to 200 queued messages, stop() or the drop of the last reference ends the actor after all of them were handled. Progress: unreferenced_actor_does_not_idle / idle_actor_is_referenced - when nothing can run any more, an actor without strong references has ended (or is inside a hook waiting for its own event), and an actor that idles is referenced, has no kill pending and an empty mailbox. The hook-language monitor C04 (on_stop at most once; killed=true only after a kill) is evaluated under C07 too: the statement names on_stop(killed=false).",
         "note": PROOF_NOTE + " Liveness (the JoinHandle eventually resolves) is stated as progress lemmas plus the settled-trace monitor, not as a temporal theorem.",
         "technique": "Lean 4 case-analysis theorems on the step function + correspondence on handle histories + Lean monitors on settled real traces",
-        "monitors": ["C07", "C01", "C02"],
+        "monitors": ["C07", "C01", "C02", "C04"],
         "corr": corr(["eager", "shutdown", "handles", "mixed", "burst", "timeouts"], erase="both"),
         "extra": ["stress"],
         "extract_items": ["lifecycle", "send_paths", "handle_algebra"],
@@ -140,7 +140,7 @@ PROPS.update({
     },
     "C08": {
         "level": "proof",
-        "text": "Kernel-checked for every run: run_only_when_empty (at the on_run poll every message accepted when that poll checked the mailbox has been taken), disable_forever_and_err_fails (on the monitor predicate: no on_run poll after Ok(false); after Err the next hook event is on_stop(false)), disabled_stays, serving_after_disable, continue_rearms. The select order / guard are extracted from src/actor.rs (shape lemma select_order). Monitors C08.runOnlyWhenEmpty / disableForeverAndErrFails on real traces; the idle family drives on_run scripts against message arrivals.",
+        "text": "Kernel-checked for every run: run_only_when_empty (at the on_run poll every message accepted when that poll checked the mailbox has been taken), disable_forever_and_err_fails (on the monitor predicate: no on_run poll after Ok(false); after Err the next hook event is on_stop(false)), disabled_stays, serving_after_disable, continue_rearms. The select order / guard are extracted from src/actor.rs (shape lemma select_order). Monitors C08.runOnlyWhenEmpty / disableForeverAndErrFails on real traces; the idle family drives on_run scripts against message arrivals. backlog mode `spinning`: an on_run that returns Ok(true) without waiting is run again pass after pass (400 passes) - nothing but Ok(false) or Err disables it.",
         "note": PROOF_NOTE,
         "technique": "Lean 4 fold-invariant proof + extraction of the select! shape + correspondence with cancel-and-restart of on_run futures",
         "monitors": ["C08"],
@@ -165,7 +165,7 @@ PROPS.update({
 PROPS.update({
     "C12": {
         "level": "proof",
-        "text": "Kernel-checked: a panic in any hook surfaces as a panic JoinError with nothing running after it (C04/C05 theorems, which quantify over all runs including every crash point), the victim's pending and later senders complete with errors (C03.completes), the deliberate deadlock panic changes nothing of other actors (deadlock_panic_is_local), the wait-for map is never corrupted in any reachable state (graph_never_corrupted = the C15 invariant), asks to a dead actor are resumable. The lock is released before the panic (extracted). Real side: multi-actor histories with scripted panics at arbitrary handler positions, replayed on the protocol model, plus a poisoned-lock probe after every macro-step; single-actor scripts panic in on_start / k-th handler / k-th on_run / on_stop and are compared step by step. Stress scenario `hookpanic` (see C04): the panic is reported, nothing queued behind it is handled, later sends fail.",
+        "text": "Kernel-checked: a panic in any hook surfaces as a panic JoinError with nothing running after it (C04/C05 theorems, which quantify over all runs including every crash point), the victim's pending and later senders complete with errors (C03.completes), the deliberate deadlock panic changes nothing of other actors (deadlock_panic_is_local), the wait-for map is never corrupted in any reachable state (graph_never_corrupted = the C15 invariant), asks to a dead actor are resumable. The lock is released before the panic (extracted). Real side: multi-actor histories with scripted panics at arbitrary handler positions, replayed on the protocol model, plus a poisoned-lock probe after every macro-step; single-actor scripts panic in on_start / k-th handler / k-th on_run / on_stop and are compared step by step. Stress scenario `hookpanic` (see C04): the panic is reported, nothing queued behind it is handled, later sends fail. backlog mode `failing3`: the on_run pass that returns Err first sends two messages to its own actor; the failed actor handles neither.",
         "note": PROOF_NOTE + " Isolation of Tokio tasks (a panic unwinds only its task) is a property of the runtime, assumed.",
         "technique": "Lean 4 theorems on the actor model and on the wait-for protocol model + replay of real multi-actor histories on the model",
         "monitors": ["C03", "C04", "C05", "C13"],
@@ -176,13 +176,13 @@ PROPS.update({
     },
     "C14": {
         "level": "proof",
-        "text": "Kernel-checked: hasPath_spec (the function translated from has_path decides reachability in >= 1 step for every graph: the len() bound always suffices), graph_covers (every unanswered in-flight ask has its edge in every reachable state), closes_panics (self-ask or any chain of in-flight asks back to the asker => the ask panics with the cycle path, inserts no edge, for every cycle length and creation order), waits_otherwise, no_one_left_waiting, asks_to_dead_are_lost, late_reply_keeps_newer_edge (a reply that arrives after its asker gave up still calls clear_wait_for with the old token; in every reachable state that removes nothing, so the asker's newer edge stays visible), path_starts_with_caller. The protocol steps (check+insert under one lock, all four hooks scoped) are extracted. Real side: random ask topologies (cycles of length 1-5, timeouts, panics, kills) replayed on the model: every model-predicted deadlock must be a real panic with the same cycle path; translation differential on 11,886 graph queries. Peers whose on_run fails reach on_stop through the error path (`runerr<k>`): cycles closed by asks made there are part of the generated histories and of the corpus. Stress scenario `cyclerace` (all-features build): two actors on two OS threads ask each other at the same instant behind a spin barrier, 1500 rounds: one of the two asks is always reported. Stress scenario `slowlog` (all-features build): three actors on three OS threads under a tracing subscriber that takes up to 50 ms for some of the crate's events; an ask whose deadline races its reply, then an ask that closes a cycle through the same asker: the closing ask always panics (60 rounds quick, 240 thorough).",
+        "text": "Kernel-checked: hasPath_spec (the function translated from has_path decides reachability in >= 1 step for every graph: the len() bound always suffices), graph_covers (every unanswered in-flight ask has its edge in every reachable state), closes_panics (self-ask or any chain of in-flight asks back to the asker => the ask panics with the cycle path, inserts no edge, for every cycle length and creation order), waits_otherwise, no_one_left_waiting, asks_to_dead_are_lost, late_reply_keeps_newer_edge (a reply that arrives after its asker gave up still calls clear_wait_for with the old token; in every reachable state that removes nothing, so the asker's newer edge stays visible), path_starts_with_caller. The protocol steps (check+insert under one lock, all four hooks scoped) are extracted, and so is the shape of the timed ask (timeout(d, self.ask(msg)): the protocol applies whatever the budget, zero included - generated histories and a corpus history use 0 ms budgets). Real side: random ask topologies (cycles of length 1-5, timeouts, panics, kills) replayed on the model: every model-predicted deadlock must be a real panic with the same cycle path; translation differential on 11,886 graph queries. Peers whose on_run fails reach on_stop through the error path (`runerr<k>`): cycles closed by asks made there are part of the generated histories and of the corpus. Stress scenario `cyclerace` (all-features build): two actors on two OS threads ask each other at the same instant behind a spin barrier, 1500 rounds: one of the two asks is always reported. Stress scenario `slowlog` (all-features build): three actors on three OS threads under a tracing subscriber that takes up to 50 ms for some of the crate's events; an ask whose deadline races its reply, then an ask that closes a cycle through the same asker: the closing ask always panics (60 rounds quick, 240 thorough).",
         "note": PROOF_NOTE + " Asks awaited concurrently inside one hook are outside the property (sequential asks only).",
         "technique": "Lean 4 proof (pigeonhole bound for the translated graph walk; protocol invariant) + replay of real histories on the protocol model",
         "monitors": ["C03"],
         "extra": ["netcorr", "tables", "stress"],
         "corr": corr(["mixed"], nq=60, nt=500),
-        "extract_items": ["has_path", "format_cycle_path", "ask_protocol", "feature_sites"],
+        "extract_items": ["has_path", "format_cycle_path", "ask_protocol", "feature_sites", "timeout_wrappers"],
         "assumptions": COMMON_ASSUME,
     },
     "C15": {
@@ -212,7 +212,7 @@ PROPS.update({
     },
     "C17": {
         "level": "proof",
-        "text": "PARTIAL (the wall-clock deadline bound is checked on real runs only, see the end of this text). Kernel-checked: aliases (tell_blocking/ask_blocking delegate to blocking_tell/blocking_ask and the dispatchers pick the timeout/no-timeout implementation: extracted), blocking_same_paths (blocking variants build the same envelope and use the same sender as tell/ask; timeout variants run tell/ask under tokio::time::timeout on a helper thread with a timer runtime: extracted), blocking_inherits (every label-list theorem covers callers on any thread: at-most-once, rejected-never, reply integrity, dead letters). Real side (multi-thread runtime, real clock): 1/4/16 plain threads issuing all six blocking forms against a live actor (delivery exactly once, per-thread order, reply integrity, aliases ignore the timeout); deadlines against a slow actor with a full mailbox (not early, not later than deadline + 300 ms); stopped actor (every variant fails at once with Send and a dead letter); timeout variants called from inside a runtime context (no panic). NOT proved: the wall-clock bound itself (it is a property of the OS scheduler, thread spawn and Tokio timer; checked with slack on real runs only). The deprecated aliases given Some(30 ms) against a full mailbox / a slow handler wait like the None forms (b9); a blocking call that timed out records exactly one dead letter whatever happens to the actor afterwards (b10). (c3) a handler's timed blocking_tell into its own full mailbox times out like tell_with_timeout; (b13) timed blocking calls on different threads do not wait for one another; the blocking scenario is run a second time on the build with all optional features.",
+        "text": "PARTIAL (the wall-clock deadline bound is checked on real runs only, see the end of this text). Kernel-checked: aliases (tell_blocking/ask_blocking delegate to blocking_tell/blocking_ask and the dispatchers pick the timeout/no-timeout implementation: extracted), blocking_same_paths (blocking variants build the same envelope and use the same sender as tell/ask; timeout variants run tell/ask under tokio::time::timeout on a helper thread with a timer runtime: extracted), blocking_inherits (every label-list theorem covers callers on any thread: at-most-once, rejected-never, reply integrity, dead letters). Real side (multi-thread runtime, real clock): 1/4/16 plain threads issuing all six blocking forms against a live actor (delivery exactly once, per-thread order, reply integrity, aliases ignore the timeout); deadlines against a slow actor with a full mailbox (not early, not later than deadline + 300 ms); stopped actor (every variant fails at once with Send and a dead letter); timeout variants called from inside a runtime context (no panic). NOT proved: the wall-clock bound itself (it is a property of the OS scheduler, thread spawn and Tokio timer; checked with slack on real runs only). The deprecated aliases given Some(30 ms) against a full mailbox / a slow handler wait like the None forms (b9); a blocking call that timed out records exactly one dead letter whatever happens to the actor afterwards (b10). (c3) a handler's timed blocking_tell into its own full mailbox times out like tell_with_timeout; (b13) timed blocking calls on different threads do not wait for one another; the blocking scenario is run a second time on the build with all optional features. blocking (b15): a timed blocking_tell that timed out on a full mailbox says nothing about the next one, which waits for the slot within its own budget.",
         "note": PROOF_NOTE + " The blocking API needs real threads; the step-by-step correspondence (single-threaded, paused clock) cannot run it, so the real side is oracle-only.",
         "technique": "Lean 4 theorems on the model + extracted send-path equalities; real-thread stress runs under property oracles",
         "monitors": ["C01", "C03", "C13"],
@@ -254,7 +254,7 @@ PROPS.update({
 PROPS.update({
     "C19": {
         "level": "proof",
-        "text": "Kernel-checked: decision_table - for every form of the #[handler] attribute (bare, any list of result/no_log/unknown options in any order and multiplicity, name-value), every declared return type (none, any path type, any other type) and both answers to 'is it really a Result', the macro's decision (compile error / impl that logs Err after tell / impl that logs nothing) equals the documented table stated independently; corollaries no_log_never_logs, result_and_no_log_is_error, non_result_logs_nothing, result_spelling_logs. is_result_type and the should_generate block are translated from rsactor-derive/src/lib.rs on every run; option parsing and the quote! templates (Reply = declared return type, handle = self.method(msg, actor_ref).await, generated on_tell_result = `if let Err(ref e) = result { error!(..) }` only, derive(Actor) = Args Self / Infallible / Ok(args), generics forwarded) are extracted shape lemmas; the runtime calls on_tell_result only without a reply channel (handle_message_shape). Real side: a generated corpus of actor programs over the grammar return-type spelling (15: unit, plain, Result in five spellings incl. bare fmt::Result and bare/generic aliases, alias not named Result, Option, tuple, Box, reference, a user type named Result) x attribute form (11) x actor kind (struct, enum, generic, generic with where clause) x message kind (plain, generic), each with co-existing non-handler methods, compiled against the real macros: programs the model calls errors must fail to compile (without any use site, so only the macro or its output can fail), the others are run through ask and tell with Ok and Err values: replies equal the method's value, error events after tell(Err) = 1 iff the model says 'log' (with the error's Display text), 0 after ask and after tell(Ok), the handler ran once per message, derive(Actor) hands back its argument. Runtime half, kernel-checked on the actor model: tell_result_adjacent (in every run tellResult/replySent occur only immediately after the handler of the same message returned, at most one of them, never after a panic) and result_follows_kind (a tell's handler is followed by on_tell_result and no reply, an ask's by its reply and no on_tell_result); the same automaton (C19.accepts) and the kind-aware C19.adjacent run on every real correspondence trace. Real threads: in the blocking stress scenario the actor overrides on_tell_result: after every tell-family blocking form (blocking_tell with and without timeout, tell_blocking) it is invoked exactly once with the handler's value, after ask-family forms never. Stress askjoin: a handler that returns a JoinHandle - ask_join gives exactly what awaiting that handle gives, whatever happens to the actor meanwhile. Every corpus program also issues ask_with_timeout(.., ZERO) with a failing handler: no error log (an ask is never a tell), the handler runs.",
+        "text": "Kernel-checked: decision_table - for every form of the #[handler] attribute (bare, any list of result/no_log/unknown options in any order and multiplicity, name-value), every declared return type (none, any path type, any other type) and both answers to 'is it really a Result', the macro's decision (compile error / impl that logs Err after tell / impl that logs nothing) equals the documented table stated independently; corollaries no_log_never_logs, result_and_no_log_is_error, non_result_logs_nothing, result_spelling_logs. is_result_type and the should_generate block are translated from rsactor-derive/src/lib.rs on every run; option parsing and the quote! templates (Reply = declared return type, handle = self.method(msg, actor_ref).await, generated on_tell_result = `if let Err(ref e) = result { error!(..) }` only, derive(Actor) = Args Self / Infallible / Ok(args), generics forwarded) are extracted shape lemmas; the runtime calls on_tell_result only without a reply channel (handle_message_shape). Real side: a generated corpus of actor programs over the grammar return-type spelling (15: unit, plain, Result in five spellings incl. bare fmt::Result and bare/generic aliases, alias not named Result, Option, tuple, Box, reference, a user type named Result) x attribute form (11) x actor kind (struct, enum, generic, generic with where clause) x message kind (plain, generic), each with co-existing non-handler methods, compiled against the real macros: programs the model calls errors must fail to compile (without any use site, so only the macro or its output can fail), the others are run through ask and tell with Ok and Err values: replies equal the method's value, error events after tell(Err) = 1 iff the model says 'log' (with the error's Display text), 0 after ask and after tell(Ok), the handler ran once per message, derive(Actor) hands back its argument. Runtime half, kernel-checked on the actor model: tell_result_adjacent (in every run tellResult/replySent occur only immediately after the handler of the same message returned, at most one of them, never after a panic) and result_follows_kind (a tell's handler is followed by on_tell_result and no reply, an ask's by its reply and no on_tell_result); the same automaton (C19.accepts) and the kind-aware C19.adjacent run on every real correspondence trace. Real threads: in the blocking stress scenario the actor overrides on_tell_result: after every tell-family blocking form (blocking_tell with and without timeout, tell_blocking) it is invoked exactly once with the handler's value, after ask-family forms never. Stress askjoin: a handler that returns a JoinHandle - ask_join gives exactly what awaiting that handle gives, whatever happens to the actor meanwhile. Every corpus program also issues ask_with_timeout(.., ZERO) with a failing handler: no error log (an ask is never a tell), the handler runs. hookpanic: after a panic in any hook of one actor (on_tell_result included) a fresh actor's handled tell is still followed by exactly one on_tell_result and its ask by none.",
         "note": PROOF_NOTE + " rustc's own behaviour (trait resolution, `if let Err` typing) is part of the trusted base of the corpus run.",
         "technique": "Lean 4 proof of the decision table over definitions translated from the macro source + extracted templates + generated program corpus compiled and run against the real macros",
         "monitors": ["C19", "C01"],
